@@ -55,6 +55,9 @@ func c02Alphabet() (lines []c02Line, hA, hB string) {
 		{text: "0.0.0.0 " + hA},
 		{text: "1.1.1.1 " + hB},
 		net(false, "||"+hB+"^", true),
+		net(false, "||ads.пример.рф^", true), // shortcut windows with bytes >= 0x80
+		{text: "0.0.0.0 ads.пример.рф"},
+		net(true, ".org^", true, "important"), // short pattern: lands in the sequential table, found last
 	}
 	return lines, hA, hB
 }
@@ -65,7 +68,7 @@ type c02Req struct {
 }
 
 func c02Requests(hA, hB string) (qs []c02Req) {
-	for _, h := range []string{"example.org", "sub.example.org", hA, hB, "EXAMPLE.ORG", ""} {
+	for _, h := range []string{"example.org", "sub.example.org", hA, hB, "EXAMPLE.ORG", "", "ads.пример.рф"} {
 		for _, t := range []uint16{1, 28, 16} {
 			for ci, cl := range []struct{ name, ip string }{{"", ""}, {"laptop", ""}, {"", "10.0.0.1"}} {
 				for ti, tags := range [][]string{nil, {"pc"}} {
@@ -96,7 +99,7 @@ func (m *c02Model) run(hist []int) statespace.Outcome {
 	if len(texts) > 0 {
 		content += "\n"
 	}
-	st, err := filterlist.NewRuleStorage([]filterlist.RuleList{&filterlist.StringRuleList{ID: 1, RulesText: content}})
+	st, err := filterlist.NewRuleStorage([]filterlist.RuleList{&filterlist.StringRuleList{ID: 0, RulesText: content}})
 	if err != nil {
 		panic(HarnessError(err.Error()))
 	}
@@ -119,7 +122,7 @@ func (m *c02Model) run(hist []int) statespace.Outcome {
 	off := 0
 	for _, i := range hist {
 		l := m.lines[i]
-		idxText[filterlist.VerifStorageIdx(1, int32(off))] = l.text
+		idxText[filterlist.VerifStorageIdx(0, int32(off))] = l.text
 		off += len(l.text) + 1
 		r, err := rules.NewRule(l.text, 1)
 		if err != nil || r == nil {
